@@ -35,6 +35,11 @@ pub fn check(tier: Tier, seed: u64) -> PropReport {
     let e = engine();
     let o = drive(&e, "C01", tier, cases, seed);
     rep.push(e.name, o);
+    if tier == Tier::Thorough && fuzz_enabled() {
+        // engine Z: coverage-guided campaign over the same case type, judged by the same monitor
+        let o = fuzz_stage(&e, "C01", "pool_backing", 60_000, seed);
+        rep.push("fuzz:pool_backing", o);
+    }
     rep.floor("histories with a multi-hop route", cases / 10);
     rep.floor("histories with an odd single-asset deposit", cases / 10);
     rep.floor("histories with a full drain", cases / 50);
